@@ -696,6 +696,7 @@ def gen_stage(ctx, st):
         for t in ("null", "true", "false", "0x", "//", "\\\\u00", "\\\\x", "e+", "e-", "E", "\\\"", "[]", "{}", "\\\":", ",]", ",}"):
             f.write('"%s"\n' % t)
     res["extra"]["case_files"] = NSHARDS
+    _fuzz_start(ctx)  # runs in the background while the harness stage executes the case files
     return res
 
 
@@ -957,7 +958,12 @@ def _run_fuzz_job(a):
     return {"rc": rc, "log": log, "jobdir": jobdir, "wall": time.time() - t0, "cmd": cmd}
 
 
-def fuzz_stage(ctx, st):
+_FUZZ = {}
+
+
+def _fuzz_start(ctx):
+    """Builds the libFuzzer target and starts the jobs in the background.  Called at the end of the gen stage so
+    that the fuzzing overlaps the harness stage (the jobs only need the seed corpus); collected by fuzz_stage."""
     from vf import build, driver
     quick = ctx["tier"] == "quick"
     exe = build.build_harness("c05_fuzz", "fuzz", extra_link=["-fsanitize=fuzzer"])
@@ -978,9 +984,21 @@ def fuzz_stage(ctx, st):
             if i % jobs == j or i % 7 == 0:
                 shutil.copy(s, os.path.join(jd, "corpus", os.path.basename(s)))
         args.append((exe, jd, runs, ctx["seed"] * 100 + j + 1, env, 3600 if quick else 21600, os.path.join(wd, "c05.dict")))
+    pool = multiprocessing.pool.ThreadPool(jobs)
+    handle = {"pool": pool, "async": pool.map_async(_run_fuzz_job, args), "jobs": jobs, "runs": runs, "seeds": seeds,
+              "exe": exe, "env": env}
+    _FUZZ[wd] = handle
+    return handle
+
+
+def fuzz_stage(ctx, st):
+    from vf import driver
+    h = _FUZZ.pop(ctx["workdir"], None) or _fuzz_start(ctx)
+    _FUZZ.pop(ctx["workdir"], None)
+    outs = h["async"].get()
+    h["pool"].close()
+    jobs, runs, seeds, exe, env = h["jobs"], h["runs"], h["seeds"], h["exe"], h["env"]
     res = driver.empty_result()
-    with multiprocessing.pool.ThreadPool(jobs) as pool:
-        outs = pool.map(_run_fuzz_job, args)
     for j, o in enumerate(outs):
         m = re.search(r"stat::number_of_executed_units:\s*(\d+)", o["log"])
         execs = int(m.group(1)) if m else 0
